@@ -16,7 +16,7 @@ CHECKS = {
          "in-memory, Redis and RabbitMQ brokers (Redis / AMQP servers = in-process fakes, assumption sets R, A); queue_flush/delete excluded.",
          "Lean 4 proof (induction over atom histories) + differential correspondence + cancellation-point enumeration", "§5 C01"),
  "C02": ("Lean: for EVERY outcome (return, raise, timeout, conversion/dependency failure, six eager responses with any set_result/set_exception/add_callback prefix, callbacks raising or not), every retry budget/attempt count, recurrence and result setting, `process` makes exactly one broker call (exactly_one_terminal), the ladder equals the disposition table (report_eq_disposition), nothing follows an eager response (nothing_after_eager). "
-         "Tie: the whole outcome × retry-state × recurrence × result × converter table is run on the real Worker (in-memory broker, virtual time, jobs concurrent in one worker) and every delivery's broker calls/stores/body/callbacks are compared with the model; the property is evaluated on the observation.",
+         "Tie: the whole outcome × retry-state × recurrence × result × converter table is run on the real Worker (in-memory broker, virtual time, jobs concurrent in one worker) and every delivery's broker calls/stores/body/callbacks are compared with the model; the property is evaluated on the observation. The same worker on the Redis and RabbitMQ brokers (in-process fake servers): per-delivery broker calls vs the model.",
          "in-memory broker; thread/process pools not exercised; one genuine defect (F8) repaired by fix: commit 4db1223.",
          "Lean 4 proof (case analysis, unbounded in retry counters) + exhaustive-table differential correspondence", "§5 C02"),
  "C03": ("Lean (in-memory broker atoms): cancel_before_returns, cancel_after_disposed, stop_conserves_partial (a task cancelled at ANY point inside an ack/nack followed by the runner's reject leaves the message in exactly one place), finish_returns_all, return_time_bound (timer model), refutation requeue_window_witness.  Redis crash recovery: maintenance_single / maintenance_not_before (a held message is returned by maintenance iff its execution timeout has elapsed since the second of its take).  RabbitMQ: rabbit_requeue_window_witness. "
@@ -24,7 +24,7 @@ CHECKS = {
          "in-memory broker for the worker runs; Redis crash recovery through maintenance on the fake server; process death and OS signal timing are runtime. PARTIAL: requeue window recorded as known finding F2.",
          "Lean 4 proof + crash-point (fault) enumeration on the real worker", "§5 C03"),
  "C04": ("Lean: the FULL statement as one theorem (C04.chain_ok): for every N ≥ 0, every failure pattern, every retry policy, duration and latency profile, recurring or not, the chain of executions of one scheduling satisfies chainOk — counters 0,1,2…, at most N+1 executions, exactly N+1 then dead-lettered/rescheduled when all fail, a success ends the chain with ack, the k-th retry not before failure + policy(k); plus counter_step, counter_bounded, chain_length, success_ends. "
-         "Tie: retry chains on the real Worker (all bitmasks for small N, exception/timeout, four policies, forced retries) — per-delivery comparison with the model and chainOk evaluated on the observed chain.",
+         "Tie: retry chains on the real Worker (all bitmasks for small N, exception/timeout, four policies, forced retries) — per-delivery comparison with the model and chainOk evaluated on the observed chain. The same chains on the Redis and RabbitMQ brokers (in-process fake servers; back-off through the delayed set / TTL queue).",
          "in-memory broker (Redis/RabbitMQ back-off delivery: see C05).",
          "Lean 4 proof (induction over the chain, unbounded N) + differential correspondence", "§5 C04"),
  "C05": ("Lean: invariant 'every waiting message that had a due time is past it' preserved by every atom, hence for ALL valid histories a normal poll never hands out a message before its due time (mem_never_early_partial; refutation witness for returns out of a DELAYED hold); update_moves_all_due + poll_progress for 'never forgotten'.  Redis: redis_never_early (a delayed message stored with the rounded-up score of its due time is never taken before it, for all positions of due time and current time inside their clock seconds; ceilSecs_le_secs, fetchDelayed_due, enqueue_score), delayed_only_visible_in_delayed, witness truncated_score_early_witness of the repaired defect.  RabbitMQ: expiry_not_early / expiry_not_late (the computed per-message TTL lets a message out at most 1 ms before and never after its execution time, incl. float shortfall), expire_step_due, head_blocks (nothing behind a not-yet-due head leaves the delayed queue) + refutation rabbit_head_of_line_witness (F21). "
@@ -32,7 +32,7 @@ CHECKS = {
          "in-memory, Redis and RabbitMQ brokers (Redis / AMQP servers = in-process fakes, assumption sets R, A); wall-clock jitter of sleep() is runtime; latency is proved per poll and sampled end-to-end.",
          "Lean 4 proof (invariant over atom histories) + differential correspondence + virtual-time scenarios", "§5 C05"),
  "C06": ("Lean: one_successor (exactly one requeue after every completed iteration, with C02), reset, window (now < next ≤ now + period, on the grid, via C19), successorOk_model, first_run_honours_deferred_until, spacing_partial + refutation spacing_witness. "
-         "Tie: recurring jobs on the real Worker over virtual time (periods × duration profiles × outcome patterns × deferred_until), successorOk on every requeue, message count after every iteration, spacingOk on consecutive scheduled times.",
+         "Tie: recurring jobs on the real Worker over virtual time (periods × duration profiles × outcome patterns × deferred_until), successorOk on every requeue, message count after every iteration, spacingOk on consecutive scheduled times. The same on the Redis and RabbitMQ brokers (in-process fake servers).",
          "cron branch not exercised (croniter absent); spacing clause PARTIAL (known finding F5).",
          "Lean 4 proof (arithmetic + case analysis) + differential correspondence over virtual time", "§5 C06"),
  "C07": ("Lean: params_roundtrip / bucket round trips at the JSON-tree level (every field, every optional subset), td_float_roundtrip (durations ≤ 100 y through total_seconds()/timedelta(seconds=float) for EVERY rounding with relative error ≤ 2^-53, over ℚ, Mathlib), redis_names_roundtrip, names_unambiguous, topic_prefix_exact, charclass_no_colon (character classes re-extracted from the live regexes on every run), marker_check/deconstruct, redis_end_to_end, rabbit_end_to_end. "
@@ -44,11 +44,11 @@ CHECKS = {
          "values already typed (parameters unannotated); dependency resolution itself is C18. PARTIAL: known finding F6b; two genuine defects (inspect._empty for a missing required argument; pydantic + empty payload) repaired by fix: commits e7907ca, 6b4d5d8.",
          "Lean 4 proof (list/lookup reasoning, ~600 lines) + program-level differential correspondence", "§5 C08"),
  "C09": ("Lean: transition system of the runner's slot bookkeeping (deliver / pause / acquire / hand-over / wake chain / spawn / done / cancellation; asyncio.Semaphore 3.12 semantics); invariant slots-conserved ∧ no-blocked-waiter-with-a-free-slot ∧ started = processed + in-flight for EVERY event sequence: inflight_le_limit, no_lost_wakeup, progress, done_frees. "
-         "Tie: step-level acceptor — the real runner's counters after EVERY event-loop callback of real Worker runs (limits × queues × durations × arrivals × pause latency × store faults) must be explained by model events (subset construction over hidden state); running actor bodies ≤ limit at every callback; all jobs executed before the bound.",
+         "Tie: step-level acceptor — the real runner's counters after EVERY event-loop callback of real Worker runs (limits × queues × durations × arrivals × pause latency × store faults) must be explained by model events (subset construction over hidden state); running actor bodies ≤ limit at every callback; all jobs executed before the bound. The same runner on the Redis and RabbitMQ brokers (prefetching consumers, in-process fake servers).",
          "liveness on the implementation observed up to a virtual-time bound; semaphore fairness trusted.",
          "Lean 4 proof (invariant over all event sequences) + step-level acceptor on the real worker", "§5 C09"),
  "C10": ("Lean (same runner model): stops_after_M_finished, processed_lt_M_before_stop, started_le_processed_plus_limit, started_le_M_partial (bound M−1+tasks_limit while not stopped) + refutations overshoot_witness / overshoot_witness_limit1 (the ≤ M clause is false on the current code). "
-         "Tie: acceptor with maxTasks = M on real Worker runs (M × backlog × durations × tasks_limit × queues), executions started, return of run(), leftover queue content and counters, run-on-enqueue plugin mode.",
+         "Tie: acceptor with maxTasks = M on real Worker runs (M × backlog × durations × tasks_limit × queues), executions started, return of run(), leftover queue content and counters, run-on-enqueue plugin mode. The same on the Redis and RabbitMQ brokers (prefetching consumers, in-process fake servers): messages beyond the limit must be back in their queue, not in flight (defect repaired by fix: dfed4c8).",
          "PARTIAL: upper bound clause recorded as known finding F4 (attributed only when the run is explained event-for-event by the model).",
          "Lean 4 proof + step-level acceptor on the real worker", "§5 C10"),
  "C11": ("Lean: invariant of every router/worker (one actor per name; topic sets = exactly the (name, queue) pairs of the actors; no empty topic set) preserved by registration and inclusion, for ANY sequence: serves_iff (full statement after fix 42c6068), union_last_wins, executes_named_actor, no_accept_all_consumer; broker side: foreign_untouched, not_blocked (in-memory rotation), refutation rotation_livelock_witness. "
@@ -60,7 +60,7 @@ CHECKS = {
          "in-memory, Redis and RabbitMQ brokers (Redis / AMQP servers = in-process fakes, assumption sets R, A).",
          "Lean 4 proof (case analysis over all atoms) + differential correspondence + boundary enumeration", "§5 C12"),
  "C13": ("Lean: execution_stores_own_outcome, latest_wins, disabled_writes_nothing (all outcomes incl. every eager prefix), store_failure_harmless (ALL outcomes, after fix 4db1223), eager_last_set. "
-         "Tie: real Worker + result bucket broker: Job.result read back after EVERY execution on fresh and long-lived Job objects (values, exceptions, retry chains, eager set_result/set_exception, reused result ids), per-delivery store comparison with the model, fault enumeration over the failing store_bucket call.",
+         "Tie: real Worker + result bucket broker: Job.result read back after EVERY execution on fresh and long-lived Job objects (values, exceptions, retry chains, eager set_result/set_exception, reused result ids), per-delivery store comparison with the model, fault enumeration over the failing store_bucket call. The same with the Redis message and bucket brokers and on RabbitMQ (in-process fake servers).",
          "in-memory bucket broker; time_ns monotone.",
          "Lean 4 proof (case analysis/induction over declarations) + differential correspondence + fault enumeration", "§5 C13"),
  "C14": ("Lean: invariant (ids unique, one believer per id, beliefs backed by processing entries) preserved by every atom; for ALL histories of any number of consumers satisfying StepOk at most one consumer believes it holds a message (mem_single_holder_partial, success_once); refutation witness for finish() with a foreign holder.  Redis: redis_take_removes_partial (reads and takes of different consumers not interleaved), take_marks_processing, refutation redis_take_race_witness (two consumers reading before either takes). "
@@ -72,7 +72,7 @@ CHECKS = {
          "in-memory, Redis and RabbitMQ brokers (Redis / AMQP servers = in-process fakes, assumption sets R, A).",
          "Lean 4 proof (view refinement) + differential correspondence", "§5 C15"),
  "C16": ("Lean: at_most_one_broker_call for EVERY call sequence/category/retry state, used_handle_refuses, category_refusals, retry_budget_refusal_keeps_handle, refusals_keep_handle, final_eq_spec (callbacks after an eager response = registration order with the store in the place of the latest set_*: full statement), body_stops. "
-         "Tie: all call sequences up to length 3 (thorough; sampled in quick) + random long ones on real Message objects vs Handle.calls; random set_*/add_callback prefixes through the real Worker vs the model and Pred.C16.orderOk.",
+         "Tie: all call sequences up to length 3 (thorough; sampled in quick) + random long ones on real Message objects vs Handle.calls; random set_*/add_callback prefixes through the real Worker vs the model and Pred.C16.orderOk. Eager responses also through the Redis and RabbitMQ brokers (in-process fake servers).",
          "sequential calls only.",
          "Lean 4 proof (induction over call sequences / declarations) + exhaustive small-scope differential correspondence", "§5 C16"),
  "C17": ("Lean: for EVERY tree of wrapped operations (any nesting depth / fan-out) a top-level call emits exactly before + (after iff it succeeds) and nothing for nested calls (signal_shape, nested_silent, no_emitter_silent); arguments by name (args_by_name_positional/keyword, dict.update semantics); a subscriber sees only the arguments its parameters name (subscriber_sees_only_named); routing_own_connection for any number of processors, witness of the repaired shared-emitter defect. "
